@@ -50,14 +50,33 @@ pub open spec fn public_input_hash(pi: &PublicInput, nvf: nat) -> nat { poseidon
 fn hoisted_extend_dynamic_params(hash_data: &mut Vec<Felt>, dynamic_params: &DynamicParams)
     ensures fv(final(hash_data)@) == fv(old(hash_data)@) + dynamic_params_seq(dynamic_params),
 { unimplemented!() }
-#[verifier::external_body]
-fn hoisted_extend_segments(hash_data: &mut Vec<Felt>, segments: &Vec<SegmentInfo>)
-    ensures fv(final(hash_data)@) == fv(old(hash_data)@) + segments_flat(segments@),
-{ unimplemented!() }
-#[verifier::external_body]
-fn hoisted_extend_headers(hash_data: &mut Vec<Felt>, headers: &Vec<ContinuousPageHeader>)
-    ensures fv(final(hash_data)@) == fv(old(hash_data)@) + headers_flat(headers@),
-{ unimplemented!() }
+/// flattening lemmas: the concatenation of the per-element chunks is the flat sequence of the specification
+pub proof fn lemma_segments_chunks(s: Seq<SegmentInfo>, chunks: Seq<Vec<Felt>>)
+    requires chunks.len() == s.len(), forall|i: int| 0 <= i < s.len() ==> (#[trigger] chunks[i])@ == seq![s[i].begin_addr, s[i].stop_ptr]
+    ensures fv(concat_vecs(chunks)) == segments_flat(s)
+    decreases s.len()
+{
+    if s.len() == 0 {
+        assert(fv(concat_vecs(chunks)) =~= segments_flat(s));
+    } else {
+        lemma_segments_chunks(s.drop_last(), chunks.drop_last());
+        assert(fv(concat_vecs(chunks)) =~= fv(concat_vecs(chunks.drop_last())) + fv(chunks.last()@));
+        assert(fv(chunks.last()@) =~= seq![s.last().begin_addr@, s.last().stop_ptr@]);
+    }
+}
+pub proof fn lemma_headers_chunks(s: Seq<ContinuousPageHeader>, chunks: Seq<Vec<Felt>>)
+    requires chunks.len() == s.len(), forall|i: int| 0 <= i < s.len() ==> (#[trigger] chunks[i])@ == seq![s[i].start_address, s[i].size, s[i].hash]
+    ensures fv(concat_vecs(chunks)) == headers_flat(s)
+    decreases s.len()
+{
+    if s.len() == 0 {
+        assert(fv(concat_vecs(chunks)) =~= headers_flat(s));
+    } else {
+        lemma_headers_chunks(s.drop_last(), chunks.drop_last());
+        assert(fv(concat_vecs(chunks)) =~= fv(concat_vecs(chunks.drop_last())) + fv(chunks.last()@));
+        assert(fv(chunks.last()@) =~= seq![s.last().start_address@, s.last().size@, s.last().hash@]);
+    }
+}
 
 /// SPEC (C15)
 pub open spec fn headers_product(h: Seq<ContinuousPageHeader>, n: nat) -> nat decreases n {
@@ -157,7 +176,11 @@ impl PublicInput {
         proof { assert(fv(hash_data@) =~= hash_head(self, n_verifier_friendly_commitment_layers@) + dyn_part(self)); }
 
         // Segments.
-        hoisted_extend_segments(&mut hash_data, &self.segments);
+        let ghost hd0 = hash_data@;
+        crate::hoist::extend_concat(&mut hash_data, &/*+*/{ let seg_chunks = /*-*/crate::hoist::slice_map(&self.segments, |s/*+*/: &SegmentInfo/*-*/| /*+*/-> (o: Vec<Felt>) ensures o@ == seq![s.begin_addr, s.stop_ptr] {/*-*/ vec![s.begin_addr, s.stop_ptr] /*+*/}/*-*/)/*+*/;
+            proof { lemma_segments_chunks(self.segments@, seg_chunks@); }
+            seg_chunks }/*-*/);
+        proof { assert(fv(hash_data@) =~= fv(hd0) + segments_flat(self.segments@)); }
 
         hash_data.push(self.padding_addr);
         hash_data.push(self.padding_value);
@@ -172,7 +195,11 @@ impl PublicInput {
         }
 
         // Add the rest of the pages.
-        hoisted_extend_headers(&mut hash_data, &self.continuous_page_headers);
+        let ghost hd1 = hash_data@;
+        crate::hoist::extend_concat(&mut hash_data, &/*+*/{ let hdr_chunks = /*-*/crate::hoist::slice_map(&self.continuous_page_headers, |h/*+*/: &ContinuousPageHeader/*-*/| /*+*/-> (o: Vec<Felt>) ensures o@ == seq![h.start_address, h.size, h.hash] {/*-*/ vec![h.start_address, h.size, h.hash] /*+*/}/*-*/)/*+*/;
+            proof { lemma_headers_chunks(self.continuous_page_headers@, hdr_chunks@); }
+            hdr_chunks }/*-*/);
+        proof { assert(fv(hash_data@) =~= fv(hd1) + headers_flat(self.continuous_page_headers@)); }
 
         poseidon_hash_many(&hash_data)
     }
